@@ -17,10 +17,10 @@ func init() {
 	register(&Rule{ID: "E-NULL-IS-A-VALUE", Props: []string{"C02", "C08"}, Floor: 1,
 		Doc: "no value built-in (a helper with an error result) compares one of its JSON-value parameters with nil: null is an ordinary argument value that must go through the same type tests as every other value, never a marker for 'argument absent'",
 		Run: ruleENullIsAValue})
-	register(&Rule{ID: "E-VARARGS-ALL", Props: []string{"C02", "C08"}, Floor: 2,
+	register(&Rule{ID: "E-VARARGS-ALL", Props: []string{"C02", "C08"}, Floor: 1,
 		Doc: "the variadic cases of the dispatcher (merge, zip) evaluate and type-check every argument before producing a result: inside the loop over the argument list only error returns occur (not_null, which the specification defines as short-circuiting, is the listed exception)",
 		Run: ruleEVarargsAll})
-	register(&Rule{ID: "P-CONSTINDEX", Props: []string{"C03", "C04", "C16"}, Floor: 8,
+	register(&Rule{ID: "P-CONSTINDEX", Props: []string{"C03", "C04", "C16"}, Floor: 1,
 		Doc: "in the literal decoders of the parser every constant index and constant slice bound on the text being decoded is in range by a dominating length fact (len(v) < k exit, len(v) == 0 exit), by the scanning idiom (the text after a backslash found by IndexByte that is not the last byte), or by slicing off a known-length prefix",
 		Run: rulePConstIndex})
 	register(&Rule{ID: "E-JSONNUMBER-CAST", Props: []string{"C05", "C18", "C02", "C14", "C16"}, Floor: 1,
@@ -335,6 +335,36 @@ func strMinLen(b *ssa.BasicBlock, x ssa.Value, depth int) int64 {
 		if m != 1<<40 && m > best {
 			best = m
 		}
+	case *ssa.Parameter:
+		// a helper's parameter: what every call site guarantees about the argument
+		fn := v.Parent()
+		pp := programOf(fn.Prog)
+		if pp == nil || pp.CG == nil {
+			break
+		}
+		node := pp.CG.Nodes[fn]
+		idx := -1
+		for i, prm := range fn.Params {
+			if prm == v {
+				idx = i
+			}
+		}
+		if node == nil || idx < 0 || len(node.In) == 0 {
+			break
+		}
+		m := int64(1 << 40)
+		for _, e := range node.In {
+			if e.Site == nil || idx >= len(e.Site.Common().Args) {
+				m = 0
+				break
+			}
+			if k := strMinLen(e.Site.Block(), e.Site.Common().Args[idx], depth+1); k < m {
+				m = k
+			}
+		}
+		if m != 1<<40 && m > best {
+			best = m
+		}
 	}
 	return best
 }
@@ -346,13 +376,33 @@ func strMinLenEdge(pred, blk *ssa.BasicBlock, e ssa.Value, depth int) int64 {
 
 func rulePConstIndex(p *Program, r *Reporter) {
 	lh := literalHelpers(p)
+	var fns []*ssa.Function
+	seenFn := map[*ssa.Function]bool{}
+	var addClosure func(fn *ssa.Function)
+	addClosure = func(fn *ssa.Function) {
+		if fn == nil || seenFn[fn] || fn.Pkg == nil || fn.Pkg.Pkg != p.Parser.Types {
+			return
+		}
+		seenFn[fn] = true
+		fns = append(fns, fn)
+		for _, c := range staticCallees(fn) {
+			if c.Signature.Recv() == nil {
+				addClosure(c)
+			}
+		}
+	}
 	for _, kind := range []string{"json", "quoted", "string"} {
-		fn := lh[kind]
-		if fn == nil {
+		if lh[kind] == nil {
 			r.Unknown(token.NoPos, "parser "+kind+" literal decoder", "literal decoder not found")
 			continue
 		}
+		addClosure(lh[kind])
+	}
+	for _, fn := range fns {
 		fname := fn.Name()
+		if c, ok := p.roles().canon[fn]; ok {
+			fname = c[strings.LastIndex(c, ".")+1:]
+		}
 		n := 0
 		for _, b := range fn.Blocks {
 			for _, in := range b.Instrs {
